@@ -161,6 +161,27 @@ def run(ctx):
             same = sorted(set(map(repr, vals))) == sorted(set(map(repr, refn)))
             ctx.inst("C11.R1", "%s#%s" % (op, label), True if same else (None if unknown else False),
                      "%s copy computes %s; reference %s" % (label, [S.show(v) for v in vals], [S.show(v) for v in refn]), H.loc(arm["body"]))
+            # whatever the shape of the arm: an adapter that can drop elements, and a fallible conversion of the scalar operand made once
+            # in front of the element walk (it then fails - or is skipped - for the empty list, where no element operation runs)
+            droppers = sorted({x["name"] for x in H.walk(arm["body"]) if H.kind(x) == "MethodCall" and x["name"] in ("flat_map", "filter_map", "flatten", "map_while", "take_while", "skip_while", "skip", "step_by", "take")
+                               and "Value" in (x.get("ty") or x.get("recv_ty") or "")})
+            if droppers:
+                ctx.inst("C11.R1", "%s#%s#every-element" % (op, label), False, "the element walk goes through %s: elements (a failing element operation is an `Err` item) can be dropped from the result" % droppers, H.loc(arm["body"]))
+            if copy == "ls":
+                envb = C.base_env(copy, lf)
+                scal = {n_ for n_, r_ in envb.roles.items() if r_ == ("role", "O")}
+                blk_ = H.strip(arm["body"])
+                hoisted = []
+                if H.kind(blk_) == "Block":
+                    for st_ in blk_["stmts"]:
+                        if st_.get("k") == "Let" and st_.get("init") is not None:
+                            for y in H.walk(st_["init"]):
+                                if H.kind(y) in ("For", "Closure", "Loop", "While"):
+                                    break
+                                if H.kind(y) == "Try" and H.kind(H.strip(y["e"])) == "MethodCall" and H.strip(y["e"])["name"].startswith("as_") and H.path_local(H.strip(H.strip(y["e"])["recv"])) in scal:
+                                    hoisted.append(H.loc(y))
+                if hoisted:
+                    ctx.inst("C11.R1", "%s#%s#scalar-converted-per-element" % (op, label), False, "the scalar operand is converted once in front of the element walk (%s): for an empty list the conversion's error is raised although no element operation runs" % hoisted[0], H.loc(arm["body"]))
             # every element is visited once, in order: one loop over zip(L, R) / the list / 0..len
             loops = [x for x in lv if x[0] == "loop-over"]
             okl = (all(loop_ok(x[1], copy) for x in loops)) if loops else None
